@@ -1,7 +1,7 @@
 (* Props/C16.v — property theorems only (C16: TLV and fixed-width codecs
    round-trip, refuse and terminate). *)
 From Coq Require Import List NArith ZArith.
-From N0 Require Import Base.PyStr Base.PyVal Codec.Util Codec.Tlv Codec.TlvProofs Codec.Fwf Codec.FwfProofs.
+From N0 Require Import Base.PyStr Base.PyVal Codec.Util Codec.Tlv Codec.TlvProofs Codec.Fwf Codec.FwfProofs Codec.FwfFillerProofs.
 Import ListNotations.
 
 (* ---- TLV -------------------------------------------------------------------- *)
@@ -167,3 +167,31 @@ Theorem C16_fwf_nonvacuous :
   gen_row rcd cols [46]%N = Ok [97; 98; 32; 45; 48; 49; 50; 46; 46; 46; 46]%N.
 Proof. exact fwf_example. Qed.
 Print Assumptions C16_fwf_nonvacuous.
+
+(* the round trip for fillers of several characters: the row starts as row_len copies of the filler
+   (|filler| * row_len characters) and the columns are spliced in by character position, so every column the record
+   has parses back to its fitted value (cell_any = fit_col ... for such a column); a column the record lacks reads the
+   characters of the filler pattern that lie at its place *)
+Theorem C16_fwf_round_trip_any_filler :
+  forall rcd cols filler,
+  filler <> [] -> cols <> [] -> layout_ok cols -> NoDup (map g_name cols) -> rec_printable rcd ->
+  exists row, gen_row rcd cols filler = Ok row /\ length row = length filler * row_len cols /\
+    parse_row row (map pcol_of_gcol cols) true =
+      Ok (PDict (map (fun c => (g_name c, t_str (cell_any rcd filler cols c))) cols)).
+Proof. exact fwf_round_trip_any_filler. Qed.
+Print Assumptions C16_fwf_round_trip_any_filler.
+
+Theorem C16_fwf_present_columns_any_filler :
+  forall rcd cols filler c v, In c cols -> lookup (g_name c) rcd = Some v ->
+  cell_any rcd filler cols c = fit_col c (str_total v).
+Proof. exact fwf_present_columns_any_filler. Qed.
+Print Assumptions C16_fwf_present_columns_any_filler.
+
+(* non-vacuity: filler "<>", A@0+3, B@3+4, C@9+2, the record has A and C: A and C come back fitted, B reads "><><" *)
+Theorem C16_fwf_any_filler_nonvacuous :
+  ff_cols <> [] /\ layout_ok ff_cols /\ NoDup (map g_name ff_cols) /\ rec_printable ff_rcd /\
+  gen_row ff_rcd ff_cols [60; 62]%N =
+    Ok [97; 98; 32; 62; 60; 62; 60; 62; 60; 53; 32; 62; 60; 62; 60; 62; 60; 62; 60; 62; 60; 62]%N /\
+  map (cell_any ff_rcd [60; 62]%N ff_cols) ff_cols = [[97; 98; 32]; [62; 60; 62; 60]; [53; 32]]%N.
+Proof. exact fwf_filler_example. Qed.
+Print Assumptions C16_fwf_any_filler_nonvacuous.
